@@ -4,6 +4,9 @@ import YModel.Sched
 `G N pre a b ad bd ver F`: every left environment `L m`, `m < a`, and every right environment `R m`, `b ≤ m ≤ N`, is present
 and fresh; the derived keys `DL m`, `m < ad`, and `DR m`, `bd ≤ m ≤ N`, are fresh or absent; the edges are always fresh;
 without precompute there are no derived keys. -/
+set_option linter.unusedSimpArgs false
+set_option linter.unusedVariables false
+
 namespace YModel.Sched
 
 def FreshK (N : Nat) (ver : Nat → Nat) (F : Key → Option Stamp) (k : Key) : Prop := F k = some (expect N ver k)
